@@ -6,36 +6,13 @@
    symbolic offset makes cbmc treat the whole block as one opaque value) */
 #define C03_BD(d) (((struct qb*)(d))->data)
 #define C03_SD(d) (((struct qs*)(d))->data)
-/* ---- UTF-8 (RFC 3629) ----
-   u8_seq: length (1..4) of the well-formed sequence starting at p[0] given `avail` bytes, 0 if p[0] does not start a
-   well-formed, complete sequence (stray continuation byte, overlong form, surrogate, > U+10FFFF, truncated). */
-static uint32_t u8_seq(const uint8_t *p, uint32_t avail, uint32_t *cp) {
-  uint8_t b0 = p[0];
-  if (b0 < 0x80) { *cp = b0; return 1; }
-  if (b0 >= 0xC2 && b0 <= 0xDF) { if (avail < 2 || (p[1] & 0xC0) != 0x80) return 0; *cp = ((uint32_t)(b0 & 0x1F) << 6) | (p[1] & 0x3F); return 2; }
-  if (b0 >= 0xE0 && b0 <= 0xEF) { if (avail < 3 || (p[1] & 0xC0) != 0x80 || (p[2] & 0xC0) != 0x80) return 0;
-    if (b0 == 0xE0 && p[1] < 0xA0) return 0; if (b0 == 0xED && p[1] >= 0xA0) return 0;
-    *cp = ((uint32_t)(b0 & 0x0F) << 12) | ((uint32_t)(p[1] & 0x3F) << 6) | (p[2] & 0x3F); return 3; }
-  if (b0 >= 0xF0 && b0 <= 0xF4) { if (avail < 4 || (p[1] & 0xC0) != 0x80 || (p[2] & 0xC0) != 0x80 || (p[3] & 0xC0) != 0x80) return 0;
-    if (b0 == 0xF0 && p[1] < 0x90) return 0; if (b0 == 0xF4 && p[1] >= 0x90) return 0;
-    *cp = ((uint32_t)(b0 & 0x07) << 18) | ((uint32_t)(p[1] & 0x3F) << 12) | ((uint32_t)(p[2] & 0x3F) << 6) | (p[3] & 0x3F); return 4; }
-  return 0; }
+/* ---- UTF-8 (RFC 3629): spec-level decoder shared with the native validator (c03_utf8.h) ---- */
 #ifndef C03_MAXBYTES
 #define C03_MAXBYTES 8
 #endif
-/* decoder contract (Qt 5.15 QUtf8::convertToUnicode, stateless): well-formed sequences -> UTF-16; every byte that does not
-   start a well-formed complete sequence -> one U+FFFD and decoding resumes at the next byte; a UTF-8 BOM at the very start
-   of the input of ONE CALL is skipped. */
-static uint32_t vpl_u8_decode(QAD *dq, const uint8_t *src, uint32_t n, uint32_t hint) {
-  uint32_t o = 0, skip = 0;
-  if (n >= 3 && src[0] == 0xEF && src[1] == 0xBB && src[2] == 0xBF) skip = 3;
-  for (uint32_t i = 0; i < hint; i++) { if (i >= n) break; if (skip) { skip--; continue; }
-    uint32_t cp = 0; uint32_t l = u8_seq(src + i, n - i, &cp);
-    if (l == 0) { C03_SD(dq)[o++] = 0xFFFD; continue; }
-    if (cp >= 0x10000) { C03_SD(dq)[o++] = (uint16_t)(0xD800 + ((cp - 0x10000) >> 10)); C03_SD(dq)[o++] = (uint16_t)(0xDC00 + ((cp - 0x10000) & 0x3FF)); }
-    else C03_SD(dq)[o++] = (uint16_t)cp;
-    skip = l - 1; }
-  return o; }
+#include "c03_utf8.h"
+#define U8_OUT(i, v) C03_SD(dq)[i] = (v)
+static uint32_t vpl_u8_decode(QAD *dq, const uint8_t *src, uint32_t n, uint32_t hint) { U8_DECODE_BODY(src, n, hint) }
 /* constant loop bounds: the `hint` of a model block without the "empty => 0" shortcut of qt_core.c (a symbolic length would
    turn that into a symbolic bound and every loop would be unrolled to the model loop bound) */
 static uint32_t c03_hint8(const uint8_t *p) { return C03_MAXBYTES; }
